@@ -165,6 +165,23 @@ def impl_unforge(b):
         return ('raised', type(e).__name__)
 
 
+def scribble(e):
+    """edit a decoded expression in place, the way a caller owning it may (annotate every node, extend every sequence)"""
+    if isinstance(e, list):
+        for x in e:
+            scribble(x)
+        e.append({'prim': 'edited'})
+    elif isinstance(e, dict):
+        for x in e.get('args', []):
+            scribble(x)
+        if 'prim' in e:
+            e['annots'] = ['%edited']
+            e.setdefault('args', []).append({'int': '999'})
+        else:
+            for k in list(e):
+                e[k] = 'edited'
+
+
 def check_node(ctx, node, mbytes, names, avail):
     """forge(expr) = model bytes; unforge(model bytes) = expr; other spellings round-trip to the normal form."""
     j = to_expr(node, names)
@@ -184,6 +201,14 @@ def check_node(ctx, node, mbytes, names, avail):
     elif u[1] != j:
         ctx.mismatch('C05:unforge:valid:wrong-expr', 'unforge_micheline(%s) = %s, model %s' % (bytes(mbytes).hex(), json.dumps(u[1]), json.dumps(j)), case)
         ok = False
+    else:
+        # decoding is a function of the bytes: whatever the caller does to one result, the next decode of the same bytes gives the expression again
+        scribble(u[1])
+        u3 = impl_unforge(mbytes)
+        if u3 != ('ok', j):
+            ctx.mismatch('C05:unforge:valid:depends-on-earlier-result', 'unforge_micheline(%s) after the caller edited an earlier result in place = %s, model %s' % (
+                bytes(mbytes).hex(), json.dumps(u3[1]) if u3[0] == 'ok' else u3, json.dumps(j)), case)
+            ok = False
     v = spell(j)
     if v != j:
         f2 = impl_forge(v)
